@@ -244,7 +244,8 @@ SPEC = Spec(
         "that numbers communication tags. R17-STATE: no module of the package "
         "keeps state that outlives a call (mutable default arguments, class- or "
         "module-level containers that functions mutate): an artefact produced "
-        "twice in one process is produced from the same inputs (canary fixture)."),
+        "twice in one process is produced from the same inputs (canary fixture). "
+        "sorted(x, key=k) counts as ordering x only when k cannot tie (no key, str/repr, .name, the key of .items())."),
     not_decided=(
         "Byte identity of C source produced by loopy and ordering inside loopy, "
         "islpy, mpi4py (trusted base); order dependence through a set hidden "
